@@ -96,7 +96,7 @@ def case(cid, rng):
             if regk == "krr-fitted" and center:
                 reg = KernelRidge(alpha=alpha, **kargs(kp, full))
                 c["reg"] = "krr"
-            mdl = KernelPCovR(mixing=a / 8.0, n_components=k, regressor=reg, center=center, svd_solver="full", tol=1e-12,
+            mdl = core.mk(KernelPCovR, mixing=a / 8.0, n_components=k, regressor=reg, center=center, svd_solver="full", tol=1e-12,
                               **kargs(kp, full)).fit(X, Y)
             TN = mdl.transform(X)
             c["TN"], c["ypN"] = fq(TN), fq(np.reshape(mdl.predict(X), (n, -1)))
